@@ -104,6 +104,7 @@ func (dsc *dataStoreCommand) unlock() {
 	if !atomic.CompareAndSwapUint32(&dsc.ds.multiLock, dsc.id, dsc.id) {
 		// release the single lock
 		dsc.ds.mu.Unlock()
+		verifPoint("ds.unlocked", 0, "")
 	}
 }
 
@@ -112,6 +113,7 @@ func (dsc *dataStoreCommand) unlockAndUnblock(uk *unblockKey) {
 	if !atomic.CompareAndSwapUint32(&dsc.ds.multiLock, dsc.id, dsc.id) {
 		// release the single lock
 		dsc.ds.mu.Unlock()
+		verifPoint("ds.unlocked", 0, "")
 	}
 }
 
